@@ -379,6 +379,8 @@ def check_rule(params):
         out.append((_sig("translate-raises", params), "biclosed2rigid(%s : %s -> %s) raised %s: %s"
                     % (params["expr"], b.dom, b.cod, type(e).__name__, str(e)[:120])))
         return out
+    if ref.snapshot(biclosed2rigid(b)) != ref.snapshot(img):
+        out.append((_sig("second-translation", params), "biclosed2rigid(%s) twice gives two different diagrams" % params["expr"]))
     errs = ref.scan(img)
     if errs:
         out.append((_sig("image-illtyped", params), "image of %s ill-typed: %s" % (params["expr"], errs[:2])))
